@@ -47,12 +47,34 @@ type gPath struct {
 	held    map[string]int
 	guarded map[ssa.Value]string // values loaded from guarded fields (maps/slices): guard key
 	pc      []*Term
+	pcVars  map[string]bool
+	nils    map[string]*Term
 	nsym    *int
 	steps   int
 }
 
+func (p *gPath) nilSym(key string) *Term {
+	if t, ok := p.nils[key]; ok {
+		return t
+	}
+	t := p.fresh(boolSort, "nil_"+key)
+	p.nils[key] = t
+	return t
+}
+
+func (p *gPath) addPC(c *Term) {
+	p.pc = append(p.pc, c)
+	termVars(c, p.pcVars, map[*Term]bool{})
+}
+
 func (p *gPath) clone() *gPath {
-	q := &gPath{env: map[ssa.Value]*Term{}, tuples: map[ssa.Value][]*Term{}, held: map[string]int{}, guarded: map[ssa.Value]string{}, nsym: p.nsym, steps: p.steps}
+	q := &gPath{env: map[ssa.Value]*Term{}, tuples: map[ssa.Value][]*Term{}, held: map[string]int{}, guarded: map[ssa.Value]string{}, nsym: p.nsym, steps: p.steps, pcVars: map[string]bool{}, nils: map[string]*Term{}}
+	for k := range p.pcVars {
+		q.pcVars[k] = true
+	}
+	for k, v := range p.nils {
+		q.nils[k] = v
+	}
 	for k, v := range p.env {
 		q.env[k] = v
 	}
@@ -101,9 +123,14 @@ type gRunner struct {
 	findings map[string]gFinding
 	incon    []string
 	skip     func(*ssa.Function) bool
+	interesting map[*ssa.Function]bool
+	visited  map[string]bool
 }
 
 func (g *gRunner) feasible(pc []*Term) string {
+	if len(pc) > 0 {
+		pc = append(coneOfInfluence(pc[:len(pc)-1], pc[len(pc)-1:]), pc[len(pc)-1])
+	}
 	g.solver.Reset()
 	for _, c := range pc {
 		g.solver.Assert(c)
@@ -210,13 +237,17 @@ func (g *gRunner) inlinable(fn *ssa.Function) bool {
 	if !strings.HasPrefix(fn.Pkg.Pkg.Path(), modPath) {
 		return false
 	}
+	if g.interesting != nil && !g.interesting[fn] {
+		return false
+	}
 	return !g.skip(fn)
 }
 
 // explore runs all paths from root.
 func (g *gRunner) explore(root *ssa.Function) {
+	g.visited = map[string]bool{}
 	nsym := 0
-	start := &gPath{env: map[ssa.Value]*Term{}, tuples: map[ssa.Value][]*Term{}, held: map[string]int{}, guarded: map[ssa.Value]string{}, nsym: &nsym}
+	start := &gPath{env: map[ssa.Value]*Term{}, tuples: map[ssa.Value][]*Term{}, held: map[string]int{}, guarded: map[ssa.Value]string{}, nsym: &nsym, pcVars: map[string]bool{}, nils: map[string]*Term{}}
 	start.stack = []*gFrame{{fn: root, b: root.Blocks[0], keys: map[ssa.Value]string{}, visits: map[*ssa.BasicBlock]int{}}}
 	work := []*gPath{start}
 	paths := 0
@@ -344,6 +375,25 @@ func (g *gRunner) run(p *gPath, root *ssa.Function) []*gPath {
 				return forks
 			}
 			f.visits[f.b]++
+			// state merging: a configuration (call stack, block, held locks) already explored from this
+			// root is not explored again
+			var sb strings.Builder
+			for _, fr := range p.stack {
+				fmt.Fprintf(&sb, "%p:%d:%d/", fr.fn, fr.b.Index, len(fr.defers))
+			}
+			var hk []string
+			for k, v := range p.held {
+				if v != 0 {
+					hk = append(hk, fmt.Sprintf("%s=%d", k, v))
+				}
+			}
+			sort.Strings(hk)
+			sb.WriteString(strings.Join(hk, ","))
+			sig := sb.String()
+			if g.visited[sig] {
+				return forks
+			}
+			g.visited[sig] = true
 		}
 		if f.idx >= len(f.b.Instrs) {
 			return forks
@@ -376,6 +426,35 @@ func (g *gRunner) run(p *gPath, root *ssa.Function) []*gPath {
 			if x != nil && y != nil && x.S == y.S {
 				if t := ucBinop(in, x, y); t != nil {
 					p.env[in] = t
+				}
+			} else if in.Op == token.EQL || in.Op == token.NEQ {
+				// pointer compared with nil: one boolean per access path
+				var ptr ssa.Value
+				if c, ok := in.Y.(*ssa.Const); ok && c.Value == nil {
+					ptr = in.X
+				} else if c, ok := in.X.(*ssa.Const); ok && c.Value == nil {
+					ptr = in.Y
+				}
+				if ptr != nil {
+					if _, isPtr := ptr.Type().Underlying().(*types.Pointer); isPtr {
+						t := p.nilSym(g.key(f, ptr))
+						if in.Op == token.NEQ {
+							t = tNot(t)
+						}
+						p.env[in] = t
+					}
+				}
+			}
+		case *ssa.FieldAddr:
+			// dereferencing a pointer the path knows to be nil panics: such a path ends here
+			if _, isPtr := in.X.Type().Underlying().(*types.Pointer); isPtr {
+				k := g.key(f, in.X)
+				if t, ok := p.nils[k]; ok {
+					c := tNot(t)
+					if g.feasible(append(append([]*Term{}, p.pc...), c)) == "unsat" {
+						return forks
+					}
+					p.addPC(c)
 				}
 			}
 		case *ssa.UnOp:
@@ -504,22 +583,35 @@ func (g *gRunner) run(p *gPath, root *ssa.Function) []*gPath {
 					next = f.b.Succs[1]
 				}
 			} else {
-				tf := g.feasible(append(append([]*Term{}, p.pc...), c))
-				ff := g.feasible(append(append([]*Term{}, p.pc...), tNot(c)))
+				// the solver is only needed when the condition shares variables with the path condition
+				tf, ff := "sat", "sat"
+				cv := map[string]bool{}
+				termVars(c, cv, map[*Term]bool{})
+				related := false
+				for v := range cv {
+					if p.pcVars[v] {
+						related = true
+						break
+					}
+				}
+				if related {
+					tf = g.feasible(append(append([]*Term{}, p.pc...), c))
+					ff = g.feasible(append(append([]*Term{}, p.pc...), tNot(c)))
+				}
 				switch {
 				case tf != "unsat" && ff != "unsat":
 					q := p.clone()
 					qf := q.stack[len(q.stack)-1]
-					q.pc = append(q.pc, tNot(c))
+					q.addPC(tNot(c))
 					qf.prev, qf.b, qf.idx = qf.b, qf.b.Succs[1], 0
 					forks = append(forks, q)
-					p.pc = append(p.pc, c)
+					p.addPC(c)
 					next = f.b.Succs[0]
 				case tf != "unsat":
-					p.pc = append(p.pc, c)
+					p.addPC(c)
 					next = f.b.Succs[0]
 				case ff != "unsat":
-					p.pc = append(p.pc, tNot(c))
+					p.addPC(tNot(c))
 					next = f.b.Succs[1]
 				default:
 					return forks
@@ -562,6 +654,72 @@ func (g *gRunner) tupleSyms(p *gPath, v ssa.Value) {
 	}
 }
 
+// interesting: functions that (transitively, through static in-module calls and closures they
+// create) touch a guarded field or a lock. Only those are roots / get inlined.
+func (g *gRunner) computeInteresting(all []*ssa.Function) map[*ssa.Function]bool {
+	direct := map[*ssa.Function]bool{}
+	calls := map[*ssa.Function][]*ssa.Function{}
+	for _, fn := range all {
+		for _, b := range fn.Blocks {
+			for _, in := range b.Instrs {
+				switch in := in.(type) {
+				case *ssa.FieldAddr:
+					if pt, ok := in.X.Type().Underlying().(*types.Pointer); ok {
+						if named, ok := pt.Elem().(*types.Named); ok {
+							if st, ok := named.Underlying().(*types.Struct); ok && named.Obj().Pkg() != nil {
+								id := named.Obj().Pkg().Name() + "." + named.Obj().Name() + "." + st.Field(in.Field).Name()
+								if _, ok := g.guards[id]; ok {
+									direct[fn] = true
+								}
+							}
+						}
+					}
+				case *ssa.Call:
+					if _, ok := lockOpOf(&in.Call); ok {
+						direct[fn] = true
+					}
+					if c := in.Call.StaticCallee(); c != nil {
+						calls[fn] = append(calls[fn], c)
+					}
+					if mc, ok := in.Call.Value.(*ssa.MakeClosure); ok {
+						calls[fn] = append(calls[fn], mc.Fn.(*ssa.Function))
+					}
+				case *ssa.Defer:
+					if _, ok := lockOpOf(&in.Call); ok {
+						direct[fn] = true
+					}
+					if c := in.Call.StaticCallee(); c != nil {
+						calls[fn] = append(calls[fn], c)
+					}
+					if mc, ok := in.Call.Value.(*ssa.MakeClosure); ok {
+						calls[fn] = append(calls[fn], mc.Fn.(*ssa.Function))
+					}
+				}
+			}
+		}
+	}
+	res := map[*ssa.Function]bool{}
+	for f := range direct {
+		res[f] = true
+	}
+	for changed := true; changed; {
+		changed = false
+		for _, fn := range all {
+			if res[fn] {
+				continue
+			}
+			for _, c := range calls[fn] {
+				if res[c] {
+					res[fn] = true
+					changed = true
+					break
+				}
+			}
+		}
+	}
+	return res
+}
+
 type gStats struct {
 	Roots    int
 	Paths    int
@@ -584,7 +742,7 @@ func runGuardedBy(prog *ssa.Program, solver *Solver, skip func(*ssa.Function) bo
 		return nil, err
 	}
 	st := &gStats{}
-	g := &gRunner{prog: prog, fset: prog.Fset, solver: solver, guards: map[string]string{}, maxDepth: 5, unwind: 2, maxPaths: 3000, findings: map[string]gFinding{}, skip: skip}
+	g := &gRunner{prog: prog, fset: prog.Fset, solver: solver, guards: map[string]string{}, maxDepth: 4, unwind: 2, maxPaths: 1500, findings: map[string]gFinding{}, skip: skip}
 	// resolve guard table against the current tree: entries whose struct or field no longer exist are skipped with a note
 	typeIndex := map[string]*types.Struct{}
 	for _, pkg := range prog.AllPackages() {
@@ -705,9 +863,10 @@ func runGuardedBy(prog *ssa.Program, solver *Solver, skip func(*ssa.Function) bo
 			}
 		}
 	}
+	g.interesting = g.computeInteresting(all)
 	var roots []*ssa.Function
 	for r := range rootSet {
-		if r.Blocks != nil {
+		if r.Blocks != nil && g.interesting[r] {
 			roots = append(roots, r)
 		}
 	}
